@@ -194,6 +194,9 @@ func runC12(e *core.Env) {
 		y := r.PickInt(2019, 2020, 2021, 2024, 2026, 1999, 4, 9998)
 		today := ref.Date{Y: y, M: r.PickInt(1, 2, 3, 6, 12, 12, 12), D: 1}
 		today.D = r.PickInt(1, 28, ref.DaysInMonth(today.Y, today.M))
+		if r.Chance(1, 10) {
+			today = obs.DSTDates[r.Intn(len(obs.DSTDates))]
+		}
 		o := gen.Opts{MaxRecs: 12, MinRecs: 1, MaxEntries: 4, OpenRanges: 1, Tags: 1, Near: &today, NearSpread: r.PickInt(2, 8, 40, 200, 900), Hostile: r.Chance(1, 5), MaxHours: 12}
 		d := gen.Document(r, o)
 		f := writeFile(e.Dir, "c12.klg", d.Text)
